@@ -28,7 +28,32 @@ static void bnd_merge_one(unsigned n1, int heap1, unsigned cap1, unsigned n2, in
   __CPROVER_assert((gh_allocs - a0) - (gh_frees - f0) == (HEAP(&a) ? 1u : 0u), "merge: exactly this' block stays live (source block released, nothing leaked)");
   if (HEAP(&a)) _ZdaPv((cv_i8 *)EXTP(&a)->_handles);
 }
-#ifdef CV_HAS_sp_merge
+/* merging a suspend point into ITSELF (sp << std::move(sp), sp = std::move(sp)): "none is dropped, none is resumed twice" - the point keeps
+ * exactly its handles, in place, and its block */
+static void bnd_self_one(unsigned n, int heap, unsigned cap, int assign)
+{
+  SP a; unsigned a0 = gh_allocs, f0 = gh_frees;
+  bnd_build(&a, n, heap, cap, hv_a);
+  SP *r = assign ? sp_move_assign(&a, &a) : sp_merge(&a, &a);
+  __CPROVER_assert(cv_exc_pending == 0 && r == &a, "self-merge: returns *this, no exception");
+  __CPROVER_assert(CNT(&a) == n, "self-merge: the point keeps exactly its handles (none dropped, none duplicated)");
+  size_t g = nondet_size_t();
+  if (g < n) __CPROVER_assert(H(&a, g) == hv_a[g], "self-merge: position-wise content unchanged");
+  __CPROVER_assert(HEAP(&a) ? EXTP(&a)->_capacity >= CNT(&a) : CNT(&a) <= 3, "self-merge: representation invariant");
+  __CPROVER_assert((gh_allocs - a0) - (gh_frees - f0) == (HEAP(&a) ? 1u : 0u), "self-merge: exactly this' block stays live");
+  if (HEAP(&a)) _ZdaPv((cv_i8 *)EXTP(&a)->_handles);
+}
+#if defined(CV_HAS_sp_merge) && defined(BND_SELF)
+void h_merge_self_bounded(void)
+{
+  cv_exc_pending = 0; gh_allocs = 0; gh_frees = 0;
+  static const unsigned char sh[][3] = { {0,0,0}, {1,0,0}, {2,0,0}, {3,0,0}, {0,1,1}, {1,1,2}, {3,1,4}, {4,1,4}, {5,1,8} };
+  for (unsigned k = 0; k < sizeof(sh) / sizeof(sh[0]); k++)
+    bnd_self_one(sh[k][0], sh[k][1], sh[k][2], BND_ASSIGN);
+  __CPROVER_assert(0, "SENTINEL reachable after all shapes");
+}
+#endif
+#if defined(CV_HAS_sp_merge) && !defined(BND_SELF)
 void h_merge_bounded(void)
 {
   cv_exc_pending = 0; gh_allocs = 0; gh_frees = 0;
